@@ -99,6 +99,10 @@ theorem runT_eq_spec (tree : Tree) (t c : Nat) (s : St IdVal) (n : Nat) :
       simp only [step, swap, setSlot, hne, if_false]
       rw [f.slots f' (Nat.lt_succ_of_lt hf), hslots f' hf]
     · exact Nat.le_trans (Nat.le_succ n) f.mono
+  | panic => exact ⟨rfl, ⟨fun _ _ => rfl, fun _ _ => rfl, Nat.le_refl _⟩⟩
+  | catch_ children =>
+    have h := runL_eq_spec children t c s n
+    simpa [runT, spec] using h
 theorem runL_eq_spec (ts : List Tree) (t c : Nat) (s : St IdVal) (n : Nat) :
     (runL t c ts s n).1 = specL ((s.active t c).getD []) ts ∧
     Frame s (runL t c ts s n).2.1 n (runL t c ts s n).2.2 := by
@@ -108,11 +112,15 @@ theorem runL_eq_spec (ts : List Tree) (t c : Nat) (s : St IdVal) (n : Nat) :
     obtain ⟨h1, f1⟩ := runT_eq_spec x t c s n
     obtain ⟨h2, f2⟩ := runL_eq_spec xs t c (runT t c x s n).2.1 (runT t c x s n).2.2
     simp only [runL, specL]
-    refine ⟨?_, ?_⟩
-    · rw [h1, h2, f1.active]
-    · exact ⟨fun t c => (f2.active t c).trans (f1.active t c),
-             fun f hf => (f2.slots f (Nat.lt_of_lt_of_le hf f1.mono)).trans (f1.slots f hf),
-             Nat.le_trans f1.mono f2.mono⟩
+    cases hp : x.panics with
+    | true => simp only [if_true]; exact ⟨by rw [h1]; simp, f1⟩
+    | false =>
+      simp only [Bool.false_eq_true, if_false]
+      refine ⟨?_, ?_⟩
+      · rw [h1, h2, f1.active]
+      · exact ⟨fun t c => (f2.active t c).trans (f1.active t c),
+               fun f hf => (f2.slots f (Nat.lt_of_lt_of_le hf f1.mono)).trans (f1.slots f hf),
+               Nat.le_trans f1.mono f2.mono⟩
 end
 
 def idKeys : List String := ["trace_id", "span_id", "span_parent"]
@@ -126,6 +134,8 @@ def Clean : Tree → Prop
   | .cur _ => True
   | .span _ _ _ _ user ch => NoKeys ("id" :: idKeys) user ∧ CleanL ch
   | .group _ ch => CleanL ch
+  | .panic => True
+  | .catch_ ch => CleanL ch
 def CleanL : List Tree → Prop
   | [] => True
   | x :: xs => Clean x ∧ CleanL xs
@@ -233,6 +243,10 @@ theorem spec_eq_ref (tree : Tree) (amb : List (String × IdVal)) (hc : Clean tre
   | group t children =>
     simp only [Clean] at hc
     simp only [spec, ref]; exact specL_eq_refL children amb hc
+  | panic => rfl
+  | catch_ children =>
+    simp only [Clean] at hc
+    simp only [spec, ref]; exact specL_eq_refL children amb hc
 theorem specL_eq_refL (ts : List Tree) (amb : List (String × IdVal)) (hc : CleanL ts) :
     specL amb ts = refL (current amb).trace (current amb).span (current amb).parent ts := by
   cases ts with
@@ -259,9 +273,12 @@ def evsT (t c : Nat) : Tree → St IdVal → Nat → List (Ev IdVal)
   | .group t' children, s, n =>
     let s2 := step (step s (.open t c n Kind.current [])) (.enter t' c n)
     [.open t c n Kind.current [], .enter t' c n] ++ evsL t' c children s2 (n + 1) ++ [.exit t' c n]
+  | .panic, _, _ => []
+  | .catch_ children, s, n => evsL t c children s n
 def evsL (t c : Nat) : List Tree → St IdVal → Nat → List (Ev IdVal)
   | [], _, _ => []
-  | x :: xs, s, n => evsT t c x s n ++ evsL t c xs (runT t c x s n).2.1 (runT t c x s n).2.2
+  | x :: xs, s, n =>
+    evsT t c x s n ++ (if x.panics then [] else evsL t c xs (runT t c x s n).2.1 (runT t c x s n).2.2)
 end
 
 theorem exec_append {V : Type} (a b : List (Ev V)) (s : St V) : exec s (a ++ b) = exec (exec s a) b := by
@@ -283,12 +300,16 @@ theorem exec_evsT (tree : Tree) (t c : Nat) (s : St IdVal) (n : Nat) :
     simp only [evsT, List.cons_append, List.nil_append, exec, exec_append]
     rw [exec_evsL children]
     simp [runT]
+  | panic => rfl
+  | catch_ children => simpa [evsT, runT] using exec_evsL children t c s n
 theorem exec_evsL (ts : List Tree) (t c : Nat) (s : St IdVal) (n : Nat) :
     exec s (evsL t c ts s n) = (runL t c ts s n).2.1 := by
   cases ts with
   | nil => rfl
   | cons x xs =>
-    simp only [evsL, exec_append, exec_evsT x, exec_evsL xs, runL]
+    cases hp : x.panics with
+    | true => simp [evsL, runL, hp, exec_evsT x]
+    | false => simp only [evsL, hp, Bool.false_eq_true, if_false, exec_append, exec_evsT x, exec_evsL xs, runL]
 end
 
 /-- handles from `n` on have never been opened -/
@@ -365,6 +386,8 @@ theorem evsT_wellNested (tree : Tree) (t c : Nat) (s : St IdVal) (n : Nat) :
     have hb := evsL_wellNested children t' c (step (step s (.open t c n Kind.current [])) (.enter t' c n)) (n + 1)
     have := wn_block s t t' c n _ _ _ _ [] (Or.inl rfl) hb
     simpa [evsT, runT] using this
+  | panic => intro g _ hf; exact ⟨g, by simp [evsT, run, exec], rfl, hf⟩
+  | catch_ children => simpa [evsT, runT] using evsL_wellNested children t c s n
 theorem evsL_wellNested (ts : List Tree) (t c : Nat) (s : St IdVal) (n : Nat) :
     WN (evsL t c ts s n) s n (runL t c ts s n).2.2 := by
   cases ts with
@@ -372,12 +395,15 @@ theorem evsL_wellNested (ts : List Tree) (t c : Nat) (s : St IdVal) (n : Nat) :
   | cons x xs =>
     intro g hi hf
     obtain ⟨g1, hr1, hst1, hf1⟩ := evsT_wellNested x t c s n g hi hf
-    have hi1 := inv_run hi _ _ _ hr1
-    rw [exec_evsT] at hr1 hi1
-    obtain ⟨g2, hr2, hst2, hf2⟩ := evsL_wellNested xs t c _ _ g1 hi1 hf1
-    refine ⟨g2, ?_, hst2.trans hst1, ?_⟩
-    · simp only [evsL, run_append, hr1, Option.bind, hr2, exec_append, exec_evsT]
-    · simpa [runL] using hf2
+    cases hp : x.panics with
+    | true => exact ⟨g1, by simpa [evsL, hp] using hr1, hst1, by simpa [runL, hp] using hf1⟩
+    | false =>
+      have hi1 := inv_run hi _ _ _ hr1
+      rw [exec_evsT] at hr1 hi1
+      obtain ⟨g2, hr2, hst2, hf2⟩ := evsL_wellNested xs t c _ _ g1 hi1 hf1
+      refine ⟨g2, ?_, hst2.trans hst1, ?_⟩
+      · simp only [evsL, hp, Bool.false_eq_true, if_false, run_append, hr1, Option.bind, hr2, exec_append, exec_evsT]
+      · simpa [runL, hp] using hf2
 end
 
 
